@@ -625,6 +625,28 @@ func TestCheck(t *testing.T) {
 		kBytes.Check(rt, BytesCase{Input: hex.EncodeToString(in)}, nt, cl...)
 	})
 
+	// decoder inputs up to 1 MiB: mutants of encodings whose strings are tens to hundreds of KiB long
+	rec.Rapid(t, "mutants-large", rec.N(40, 600), func(rt *rapid.T) {
+		n := rapid.IntRange(1, 3).Draw(rt, "strings")
+		tree := Node{IsList: true}
+		for i := 0; i < n; i++ {
+			l := rapid.SampledFrom([]int{65535, 65536, 65537, 100000, 1 << 18, 1<<19 - 1, 1 << 19}).Draw(rt, "len")
+			tree.Items = append(tree.Items, Node{Fill: &Fill{Len: l, Seed: rapid.Uint32().Draw(rt, "seed")}})
+			if rapid.Bool().Draw(rt, "nest") {
+				tree = Node{IsList: true, Items: []Node{tree}}
+			}
+		}
+		enc := rlpref.Encode(tree.item())
+		in, op := mutate(rt, enc)
+		if len(in) > 1<<20 {
+			in = in[:1<<20]
+		}
+		_, accepted, lenRej := judgeRaw(in)
+		nt := len(in) > 0 && in[0] >= 0x80 && (accepted || lenRej)
+		cl := []string{"mutant-large:" + op, "bytes:>=64KiB"}
+		kBytes.Check(rt, BytesCase{Input: hex.EncodeToString(in)}, nt, cl...)
+	})
+
 	rec.Rapid(t, "random-bytes", rec.N(5000, 40000), func(rt *rapid.T) {
 		n := gen.Len(rt, "len", 300)
 		in := gen.Bytes(rt, "in", n)
